@@ -64,7 +64,8 @@ func c04Containers(in c04Input) []fakedocker.Container {
 		var recs []fakedocker.Rec
 		for j, ts := range seq {
 			msg, ns := c04Rec(in, i, j, ts)
-			recs = append(recs, fakedocker.Rec{Stream: byte(1 + (i+j)%2), TS: fakedocker.TS(ns), Msg: msg})
+			// (frame types 1, 2 and 0: the type of a frame says which stream of the container it came from, nothing else)
+			recs = append(recs, fakedocker.Rec{Stream: byte((1 + i + j) % 3), TS: fakedocker.TS(ns), Msg: msg})
 		}
 		ctr := fakedocker.Container{
 			ID:    fmt.Sprintf("id%d", i),
